@@ -502,6 +502,8 @@ impl TableTreeMut {
 
     // root_page: the root of the master table
     pub(crate) fn list_tables(&self, table_type: TableType) -> Result<Vec<String>> {
+        #[cfg(redb_verif)]
+        crate::verif::pause("X.list_tables.locked");
         let tree = TableTree::new(
             self.tree.get_root(),
             PageHint::None,
@@ -608,6 +610,8 @@ impl TableTreeMut {
                 Ok(())
             })?;
 
+            #[cfg(redb_verif)]
+            crate::verif::pause("F.delete_table");
             // Free only after the fallible catalog removal: a still-reachable table's pages
             // must never sit in the freed queue of a committable transaction
             let found = self.tree.remove(&name)?.is_some();
@@ -622,6 +626,8 @@ impl TableTreeMut {
                     freed_pages.push(page);
                 }
             }
+            #[cfg(redb_verif)]
+            crate::verif::pause("F.delete_table.locked");
             drop(freed_pages);
 
             return Ok(found);
